@@ -10,6 +10,20 @@ TRUST = ("g++ 12 as arbiter of 'compiles'; clang 14 front end + LLVM 14 -O2 pipe
          "the fact extractors and rule tables in /verif/engine (exercised by selftest mutants); nothing is executed")
 
 CLAIMED = {
+    "C03": dict(
+        level="other", design="5/C03", technique="abstract interpretation of loop-free LLVM IR: query count/routing/dependence facts + polynomial normal form of the interpolation expression",
+        text="Decides the structure of the interpolant for every (N, M, coordinate type, stored type) instantiation including N != M: 2^N queries at int(c)+{0,1}^N, output dependence, "
+             "and equality of the interpolation expression with the N-linear form as a real-ring polynomial identity. It does not bound floating-point rounding error; lattice-point exactness and the range clause are stated consequences.",
+        note="quick: 10 instantiations N<=4; thorough: N 1..5 x M 1..4 x float/double coordinate x float/double storage; ring identity not rounding bound"),
+    "C04": dict(
+        level="other", design="5/C04", technique="value-identity (D-route) reading of loop-free LLVM IR with a whitelist of round-to-nearest idioms",
+        text="One backend query whose k-th argument is an integer conversion of a whitelisted round-to-nearest operation applied to exactly coordinate component k, in the coordinate's own precision "
+             "(no narrowing before rounding), for float and double coordinates. The within-one-half bound then rests on the libm/IEEE contract of that operation.",
+        note="unrecognised rounding idiom = exit 2; default FP environment assumed"),
+    "C09": dict(
+        level="other", design="5/C09", technique="abstract interpretation of loop-free LLVM IR: polynomial normal form over matrix entries (real ring), exact routing for factories",
+        text="affine*vector, affine*affine (right factor first), translation/scaling/identity factories and the layer's lookup are compared with the textbook formulas as polynomial identities for N 1..4, float/double. Rounding error not decided.",
+        note="real-ring identities; products of >2 transforms by associativity of the verified binary product"),
     "C10": dict(
         level="proof", design="5/C10", technique="abstract interpretation of loop-free LLVM IR over order types (D-ord) + dependence/routing facts",
         text="Per instantiation clamp<probe<S,N>> the select/compare tree feeding the single backend query is evaluated on every weak ordering of (c,lo,hi) with lo<=hi; "
